@@ -381,6 +381,33 @@ pub fn generate(g: &mut Gen, thorough: bool) {
             g.push(super::op_line("default", &res, &[], def, "both", "F", &data), "witness-modifier-only-steps", true);
         }
     }
+    // an invocation is expanded when it is instantiated, from the body registered then: the same text instantiated
+    // again after the macro was registered again is the new body
+    super::c18::redefinition_histories(g);
+    // an ellipsoid the caller names reaches the body's steps whether or not the body mentions it: a name that is no
+    // ellipsoid is refused when the invocation is instantiated, however deep the step sits
+    {
+        let res = vec![
+            ("e:cart".to_string(), "cart".to_string()),
+            ("e:pipe".to_string(), "addone | cart | addone inv".to_string()),
+            ("e:nest".to_string(), "addone | e:cart inv".to_string()),
+            ("e:molo".to_string(), "molodensky dx=1 dy=2 dz=3".to_string()),
+            ("e:utm".to_string(), "utm zone=32".to_string()),
+            ("e:lat".to_string(), "e:inner geocentric".to_string()),
+            ("e:inner".to_string(), "latitude".to_string()),
+        ];
+        for def in [
+            "e:cart ellps=bogus", "e:cart ellps=intl", "e:pipe ellps=nosuch", "e:pipe ellps=bessel", "e:nest ellps=GRS81", "e:nest ellps=6378137,298.3",
+            "e:molo ellps_0=bogus ellps_1=intl", "e:molo ellps_0=intl ellps_1=bogus", "e:molo ellps=bogus", "e:utm ellps=bogus", "e:utm ellps=6378137,nan,x",
+            "e:lat ellps=bogus", "e:lat ellps=clrk66", "addone | e:cart ellps=bogus | addone", "e:cart ellps=", "e:cart ellps=1,2,3,4",
+        ] {
+            let data = crate::wire::data_of(&[[0.2, 0.9, 10.0, 2000.0], [1.0, 2.0, 3.0, 4.0]]);
+            g.push(super::c09::case("default", &res, def, &data), "oracle-ellipsoid-named-by-the-caller", true);
+            for dir in ["F", "I"] {
+                g.push(super::op_line("default", &res, &[], def, "both", dir, &data), "witness-ellipsoid-named-by-the-caller", true);
+            }
+        }
+    }
     let n = if thorough { 25000 } else { 2200 };
     for _ in 0..n {
         let nm = 1 + g.rng.below(6);
